@@ -1,17 +1,96 @@
 //! Verification harness: generators, real-code executors and property oracles.
 //! Every property module offers `gen_case` (op lines from one PRNG state) and `exec_case`
 //! (runs the REAL implementation on op lines, returns canonical output lines + oracle verdicts).
+//! One cargo feature per property module (so that work on one module cannot break the others).
 pub mod rng;
 pub mod runner;
 pub mod util;
 
+#[cfg(feature = "c01")]
+pub mod c01;
+#[cfg(feature = "c02")]
+pub mod c02;
+#[cfg(feature = "c03")]
+pub mod c03;
+#[cfg(feature = "c04")]
+pub mod c04;
+#[cfg(feature = "c05")]
+pub mod c05;
+#[cfg(feature = "c06")]
+pub mod c06;
+#[cfg(feature = "c07")]
+pub mod c07;
+#[cfg(feature = "c08")]
 pub mod c08;
+#[cfg(feature = "c09")]
+pub mod c09;
+#[cfg(feature = "c10")]
+pub mod c10;
+#[cfg(feature = "c11")]
+pub mod c11;
+#[cfg(feature = "c12")]
+pub mod c12;
+#[cfg(feature = "c13")]
+pub mod c13;
+#[cfg(feature = "c14")]
+pub mod c14;
+#[cfg(feature = "c15")]
+pub mod c15;
+#[cfg(feature = "c16")]
+pub mod c16;
+#[cfg(feature = "c17")]
+pub mod c17;
+#[cfg(feature = "c18")]
+pub mod c18;
+#[cfg(feature = "c19")]
+pub mod c19;
+#[cfg(feature = "c20")]
+pub mod c20;
 
 use runner::Prop;
 
 pub fn prop_by_id(id: &str) -> Option<Box<dyn Prop>> {
     match id {
+        #[cfg(feature = "c01")]
+        "C01" => Some(Box::new(c01::C01)),
+        #[cfg(feature = "c02")]
+        "C02" => Some(Box::new(c02::C02)),
+        #[cfg(feature = "c03")]
+        "C03" => Some(Box::new(c03::C03)),
+        #[cfg(feature = "c04")]
+        "C04" => Some(Box::new(c04::C04)),
+        #[cfg(feature = "c05")]
+        "C05" => Some(Box::new(c05::C05)),
+        #[cfg(feature = "c06")]
+        "C06" => Some(Box::new(c06::C06)),
+        #[cfg(feature = "c07")]
+        "C07" => Some(Box::new(c07::C07)),
+        #[cfg(feature = "c08")]
         "C08" => Some(Box::new(c08::C08)),
+        #[cfg(feature = "c09")]
+        "C09" => Some(Box::new(c09::C09)),
+        #[cfg(feature = "c10")]
+        "C10" => Some(Box::new(c10::C10)),
+        #[cfg(feature = "c11")]
+        "C11" => Some(Box::new(c11::C11)),
+        #[cfg(feature = "c12")]
+        "C12" => Some(Box::new(c12::C12)),
+        #[cfg(feature = "c13")]
+        "C13" => Some(Box::new(c13::C13)),
+        #[cfg(feature = "c14")]
+        "C14" => Some(Box::new(c14::C14)),
+        #[cfg(feature = "c15")]
+        "C15" => Some(Box::new(c15::C15)),
+        #[cfg(feature = "c16")]
+        "C16" => Some(Box::new(c16::C16)),
+        #[cfg(feature = "c17")]
+        "C17" => Some(Box::new(c17::C17)),
+        #[cfg(feature = "c18")]
+        "C18" => Some(Box::new(c18::C18)),
+        #[cfg(feature = "c19")]
+        "C19" => Some(Box::new(c19::C19)),
+        #[cfg(feature = "c20")]
+        "C20" => Some(Box::new(c20::C20)),
         _ => None,
     }
 }
